@@ -58,20 +58,24 @@ func TestBpfDump(t *testing.T) {
 	if err := json.Unmarshal(b, &cfgs); err != nil {
 		t.Fatal(err)
 	}
-	out := []bpfProg{}
-	for _, c := range cfgs {
-		p := bpfProg{bpfCfg: c, Prog: []bpfIns{}}
-		var raw []bpf.RawInstruction
-		var err error
+	// every program is generated first and read afterwards: concurrent runs hold their programs at the same time,
+	// so a program must not change when the filter for another tuple is generated
+	raws := make([][]bpf.RawInstruction, len(cfgs))
+	errs := make([]error, len(cfgs))
+	for i, c := range cfgs {
 		if c.Type < 0 {
-			raw = packets.VerifDropAllFilter()
+			raws[i] = packets.VerifDropAllFilter()
 		} else {
-			raw, err = packets.VerifClassicBPF(specOf(c))
+			raws[i], errs[i] = packets.VerifClassicBPF(specOf(c))
 		}
-		if err != nil {
-			p.Err = err.Error()
+	}
+	out := []bpfProg{}
+	for i, c := range cfgs {
+		p := bpfProg{bpfCfg: c, Prog: []bpfIns{}}
+		if errs[i] != nil {
+			p.Err = errs[i].Error()
 		}
-		for _, r := range raw {
+		for _, r := range raws[i] {
 			p.Prog = append(p.Prog, bpfIns{Op: int(r.Op), Jt: int(r.Jt), Jf: int(r.Jf), K: [2]int{int(r.K >> 16), int(r.K & 0xffff)}})
 		}
 		out = append(out, p)
